@@ -223,7 +223,7 @@ def bounded(pr):
                         axes.append((sx * mag[0], sy * mag[1], sz * mag[2]))
     for _ in range(n_rand):
         axes.append(tuple(rng.uniform(-10, 10) for _ in range(3)))
-    thetas = [0.0, 0.7, -2.1, math.pi / 2, math.pi, 3.9, -0.001]
+    thetas = [0.0, 0.7, -2.1, math.pi / 2, math.pi, -math.pi, 3 * math.pi, 2 * math.pi, 3.9, -0.001]
     vecs = [(1.0, 1.0, 0.3), (-0.7, 0.4, 1.9), (0.0, 0.0, 1.0), (2.0, 0.0, 0.0)]
     ev = 0
     viol = []
@@ -248,6 +248,28 @@ def bounded(pr):
                     if len(viol) < 3:
                         viol.append({'what': 'rotate_vector_around_an_axis(%r, %r, %r) = %r, Rodrigues = %r' % (t, a, v, got, exp),
                                      'replay': REPLAY % {'axis': list(a), 'vec': list(v), 'thetas': [t]}})
+    # one axis / vector object re-used and changed in place between calls (callers such as protonate.py keep Vector objects)
+    ax_obj, v_obj = va.Vector(0, 0, 1), va.Vector(1, 0, 0)
+    for a in axes[:60]:
+        ax_obj.x, ax_obj.y, ax_obj.z = a
+        v = vecs[len(fams) % len(vecs)]
+        v_obj.x, v_obj.y, v_obj.z = v
+        t = 0.7
+        ev += 1
+        nrm = math.sqrt(sum(x * x for x in a))
+        k = [x / nrm for x in a]
+        c, s = math.cos(t), math.sin(t)
+        kxv = (k[1] * v[2] - k[2] * v[1], k[2] * v[0] - k[0] * v[2], k[0] * v[1] - k[1] * v[0])
+        kd = sum(x * y for x, y in zip(k, v))
+        exp = [v[i] * c + kxv[i] * s + k[i] * kd * (1 - c) for i in range(3)]
+        try:
+            r = va.rotate_vector_around_an_axis(t, ax_obj, v_obj)
+            got = (r.x, r.y, r.z)
+        except Exception:    # noqa
+            got = None
+        if got is None or max(abs(g - e) for g, e in zip(got, exp)) > 1e-9 * (1 + max(abs(x) for x in v)):
+            if len(viol) < 3:
+                viol.append({'what': 'axis object re-used and set to %r in place: result %r, Rodrigues %r' % (a, got, exp), 'replay': None})
     pr.bounded.append({'name': 'C20-monitor: real function vs closed form', 'evaluations': ev,
                        'distinct_nontrivial': len(fams), 'bound': '%d axes x %d angles x %d vectors' % (len(axes), len(thetas), len(vecs)),
                        'rule': 'all 26 zero/sign families of the axis at 3 magnitudes + %d random axes; distinct = sign families hit' % n_rand,
